@@ -198,7 +198,8 @@ class Runner:
             else:
                 wq += [str(pos), str(who), 'E' if errno == EIO else 'N']
         n = case['cache']
-        lags = [1] if n == 1 else list(range(1, n))[:8]
+        # a lag beyond the number of remaining iterations means 'never collected': lags up to the number of enabled stripes cover all schedules
+        lags = [1] if n == 1 else list(range(1, min(n, len(self.ref.enabled) + 2)))
         sm = r.summary()
         bailed_real = sm.get('exit') not in ('ok', 'error')
         real = {'fail': r.rc != 0, 'content': self.norm(br.ser_content(st2))}
@@ -314,6 +315,30 @@ class Runner:
                 if p != pos and (view[p]['info'] is None or view[p]['info']['bad'] or not view[p]['allblk']):
                     chk.violation('scrub_others', 'scrub with a fault at stripe %d: stripe %d is left %s' % (pos, p, view[p]), rep)
                     break
+            # ---- the scrub-stripe model on the same outcome
+            if self.model and case['errno'] == EIO:
+                order = {m['name']: m['pos'] for m in st1['maps']}
+                stripes1, _ = a.stripes(st1)
+                dt = []
+                for dp in range(a.nd):
+                    blk = stripes1.get(pos, {}).get(dp)
+                    isfile = blk is not None and blk[0] != 'DEL'
+                    out = 'I' if (t[0] == 'data' and order.get(t[1]) == dp) else 'O1'
+                    dt += ['1', '1' if (blk is not None and blk[0] != 'BLK') else '0', '1' if isfile else '0', '0', '1' if (isfile and blk[0] in ('BLK', 'REP')) else '0', out]
+                pl = ['I' if (t[0] == 'par' and t[1] == l) else 'P1' for l in range(a.np)]
+                req = ['scrub1', '100', '0', '7', str(i1['time'] if i1 else 0), str(int(i1['bad']) if i1 else 0), str(int(i1['rehash']) if i1 else 0),
+                       str(int(i1['justsynced']) if i1 else 0), 'D', str(a.nd)] + dt + ['L', str(a.np)] + pl
+                out = run_lines(self.model, [' '.join(req)], shards=1)[0].split()
+                if out[:1] != ['ok']:
+                    chk.violation('model_error', 'scrub model failed: %s' % ' '.join(out)[:200], {'request': ' '.join(req)}, no_input=True)
+                else:
+                    mtime, mbad, mbail, mnerr, mnio = int(out[1]), out[2] == '1', out[5] == '1', int(out[6]), int(out[8])
+                    real_t = (v['info']['time'], v['info']['bad'], str(mnio), str(mnerr)) if v['info'] else None
+                    if mbail or real_t != (mtime, mbad, r.summary().get('error_io'), r.summary().get('error_file')):
+                        chk.violation('drift_scrub', 'MODEL-DRIFT: scrub stripe model (time %d bad %s nio %d nerr %d bail %s) differs from the binary (%s, summary %s)' % (
+                            mtime, mbad, mnio, mnerr, mbail, v['info'], r.summary()), rep, no_input=True)
+                    else:
+                        self.stats['model_compared'] += 1
             rstat = a.run('status')
             if case['errno'] == EIO and int(rstat.summary().get('has_bad', 0) or 0) < 1:
                 chk.violation('scrub_status', 'scrub: EIO at stripe %d but status shows has_bad:%s' % (pos, rstat.summary().get('has_bad')), rep)
